@@ -1,18 +1,19 @@
 """C08 - Outgoing session ids count 1..0xFFFF per destination; reboot flag clears on wrap."""
 from __future__ import annotations
 
+import dataclasses
 import ipaddress
 
 from hypothesis import strategies as st
 
 from ..engine import ok, require
 from .. import wire
-from ..simkit import ADDRS, MCAST, FakeTransport, Sim, hdr, make_sd, sd, service
+from ..simkit import ADDRS, MCAST, FakeTransport, Sim, hdr, make_sd, peer_addr, sd, service
 
 PID = "C08"
 RULE = (
     "SD: histories of blocks (destination, count, empty-send mode) through ServiceDiscoveryProtocol.send_sd to the "
-    "multicast group (remote=None) and up to 3 unicast peers, interleaved with SD messages received from those peers (also with reboot evidence), counts from {1,2,3,100,65534,65535,65536}+random so that "
+    "multicast group (remote=None) and up to 4 unicast peers (two of them differing in the IPv6 scope id only), round-robin sweeps over 10..300 further peers, messages of 1..300 entries, interleaved with SD messages received from those peers (also with reboot evidence), counts from {1,2,3,100,65534,65535,65536}+random so that "
     "destinations wrap at different moments; notification path: SimpleService/SimpleEventgroup with up to 3 subscribed "
     "endpoints and scripts of subscribe/unsubscribe/notify rounds long enough to wrap; every datagram is decoded "
     "independently (session id bytes 10-11, flags byte 16); non-trivial = some destination crosses its wrap while "
@@ -25,6 +26,7 @@ ASSUMPTIONS = [
 BUDGET = {"quick": {"examples": 320, "shrink": 40}, "thorough": {"examples": 4800, "shrink": 200}}
 EXHAUSTIVE = "one destination walked through 2 x 65535 + 10 consecutive SD sends (fixed case), i.e. the complete cycle of (flag, id) states twice"
 
+CROWD0 = 100
 DESTS = [None] + ADDRS + [("2001:db8::3", 30490, 0, 7)]   # the last one differs from ADDRS[1] in its scope id only
 
 
@@ -71,6 +73,13 @@ def _case(draw):
         if draw(st.integers(0, 4)) == 0:
             blocks.append(["recv", draw(st.integers(0, 2)), draw(st.sampled_from([0, 1, 1]))])
             continue
+        if draw(st.integers(0, 7)) == 0:
+            # round-robin over many further unicast peers: every peer gets one message per round
+            nd, rounds = draw(st.sampled_from([10, 40, 129, 150, 300])), draw(st.integers(1, 3))
+            if nd * rounds <= budget:
+                budget -= nd * rounds
+                blocks.append(["sweep", nd, rounds])
+            continue
         # wrap-crossing blocks are expensive (65535 real sends): one block in eight, the rest are short
         c = draw(st.sampled_from([65534, 65535, 65536])) if draw(st.integers(0, 7)) == 0 else draw(st.one_of(st.sampled_from([1, 2, 3, 100]), st.integers(1, 300)))
         c = min(c, budget)
@@ -78,7 +87,10 @@ def _case(draw):
             break
         budget -= c
         mode = draw(st.sampled_from([0, 0, 1, 2])) if c <= 300 else draw(st.sampled_from([0, 1]))
-        blocks.append([draw(st.integers(0, 4)), c, mode])
+        blk = [draw(st.integers(0, 4)), c, mode]
+        if c <= 300 and draw(st.integers(0, 3)) == 0:
+            blk.append(draw(st.sampled_from([2, 16, 86, 87, 120, 300])))   # entries per message (default 1)
+        blocks.append(blk)
     return {"kind": "sd", "blocks": blocks}
 
 
@@ -112,13 +124,22 @@ def _run_sd(case):
             if counts.get(wd, 0) > 0:
                 pending_empty.add(wd)
 
-        def send(d, wd):
+        def send(d, wd, nent=1):
             before = len(tr.sent)
-            prot.send_sd([entry], remote=d)
+            prot.send_sd([entry] if nent == 1 else [dataclasses.replace(entry, service_id=1 + k) for k in range(nent)], remote=d)
+            if nent == 1:
+                require(len(tr.sent) == before + 1, "C08.send-count", lambda: f"{len(tr.sent) - before} datagrams for one send_sd with one entry")
+            else:
+                require(len(tr.sent) >= before + 1, "C08.send-count", lambda: f"nothing transmitted for a send_sd with {nent} entries")
+            # whatever number of messages the entries travel in, each of them is the destination's next message
+            for _, dest, data in tr.sent[before:]:
+                check_sent(wd, dest, data)
+            if len(tr.sent) > 200:
+                del tr.sent[:]
+
+        def check_sent(wd, dest, data):
             n = counts.get(wd, 0) + 1
             counts[wd] = n
-            require(len(tr.sent) == before + 1, "C08.send-count", lambda: f"{len(tr.sent) - before} datagrams for one send_sd")
-            _, dest, data = tr.sent[-1]
             sid = int.from_bytes(data[10:12], "big")
             flag = bool(data[16] & 0x80)
             require(dest == wd, "C08.destination", lambda: f"sent to {dest}, requested {wd}")
@@ -132,8 +153,6 @@ def _run_sd(case):
                 crossed.add(wd)
                 if any(v != n for k, v in counts.items() if k != wd):
                     flags["nontrivial"] = True
-            if len(tr.sent) > 200:
-                del tr.sent[:]
 
         rx = {}
         for blk in case["blocks"]:
@@ -147,13 +166,22 @@ def _run_sd(case):
                 prot.datagram_received(b_.datagram(n_, reboot=flag), peer, False)
                 sim.settle()
                 continue
+            if blk[0] == "sweep":
+                for _ in range(max(0, min(blk[2], 5))):
+                    for k in range(max(0, min(blk[1], 1000))):
+                        d = peer_addr(CROWD0 + k)
+                        send(d, d)
+                if blk[1] > 1 and blk[2] > 1:
+                    flags["nontrivial"] = True
+                continue
             d = DESTS[blk[0] % len(DESTS)]
             wd = MCAST if d is None else d
             count, mode = max(0, min(blk[1], 200000)), blk[2]
+            nent = max(1, min(int(blk[3]), 1000)) if len(blk) > 3 else 1
             for _ in range(count):
                 if mode == 2:
                     empty(d, wd)
-                send(d, wd)
+                send(d, wd, nent)
             if mode >= 1:
                 empty(d, wd)
     return ok(flags["nontrivial"] or flags["empties"],
